@@ -49,3 +49,40 @@ fn c11_fai_query_offset_induction_small_geometry() {
     kani::cover!((s as u64) % lbc == 0 && s as u64 > lbc);
     std::mem::forget(rec);
 }
+
+fn concrete_geometry_case(lbc: u64, lw: u64) {
+    let pos: u64 = kani::any();
+    kani::assume(pos < (1 << 40));
+    let rec = fai::Record::new("s", 0, pos, NonZero::new(lbc).unwrap(), NonZero::new(lw).unwrap());
+    let s: usize = kani::any();
+    kani::assume(1 <= s && s < 4096);
+    let a = q(&rec, s);
+    let b = q(&rec, s + 1);
+    // 0-based index of base s+1 is s: it starts a new line iff s % lbc == 0
+    if (s as u64) % lbc != 0 {
+        assert_eq!(b, a + 1);
+    } else {
+        assert_eq!(b, a + 1 + (lw - lbc));
+    }
+    assert_eq!(q(&rec, 1), pos);
+    std::mem::forget(rec);
+}
+
+macro_rules! geometry_instance {
+    ($name:ident, $lbc:expr, $lw:expr) => {
+        #[kani::proof]
+        #[kani::unwind(3)]
+        fn $name() {
+            concrete_geometry_case($lbc, $lw);
+        }
+    };
+}
+
+// @verif prop=C11 id=O11.1/kani-60-61 tier=quick harness=c11_fai_query_offset_geometry_60_61 unwind=3 bound="through the PUBLIC fai::Record::query(Interval): CONCRETE geometry line_bases=60, line_width=61 (division by a constant; symbolic geometries are the MIR->SMT obligation O11.1), ANY position < 2^40, ANY 1-based start < 4096: offset(1) = position; offset(s+1)-offset(s) = 1 inside a line, 2 across a line end -- a cross-check of the E2 kernel binding that survives refactorings of the function body" fns="fai::Record::query,Interval::start,Position"
+geometry_instance!(c11_fai_query_offset_geometry_60_61, 60, 61);
+// @verif prop=C11 id=O11.1/kani-3-5 tier=quick harness=c11_fai_query_offset_geometry_3_5 unwind=3 bound="as O11.1/kani-60-61 with line_bases=3, line_width=5 (CR LF line ends)" fns="fai::Record::query,Interval::start,Position"
+geometry_instance!(c11_fai_query_offset_geometry_3_5, 3, 5);
+// @verif prop=C11 id=O11.1/kani-1-2 tier=thorough harness=c11_fai_query_offset_geometry_1_2 unwind=3 bound="as O11.1/kani-60-61 with line_bases=1, line_width=2" fns="fai::Record::query,Interval::start,Position"
+geometry_instance!(c11_fai_query_offset_geometry_1_2, 1, 2);
+// @verif prop=C11 id=O11.1/kani-80-82 tier=thorough harness=c11_fai_query_offset_geometry_80_82 unwind=3 bound="as O11.1/kani-60-61 with line_bases=80, line_width=82" fns="fai::Record::query,Interval::start,Position"
+geometry_instance!(c11_fai_query_offset_geometry_80_82, 80, 82);
